@@ -339,7 +339,7 @@ func (p *Parser) parseQualifiedRule() GrammarType {
 	first := true
 	inAttrSel := false
 	skipWS := true
-	var tt TokenType
+	var tt, prevTT TokenType
 	var data []byte
 	for {
 		if first {
@@ -372,7 +372,7 @@ func (p *Parser) parseQualifiedRule() GrammarType {
 		}
 		if len(data) == 1 && (data[0] == ',' || data[0] == '>' || data[0] == '+' || data[0] == '~') {
 			skipWS = true
-		} else if p.prevWS && !skipWS && !inAttrSel {
+		} else if p.prevWS && !skipWS && (!inAttrSel || isWordToken(prevTT) && isWordToken(tt)) {
 			p.pushBuf(WhitespaceToken, wsBytes)
 		} else {
 			skipWS = false
@@ -383,7 +383,13 @@ func (p *Parser) parseQualifiedRule() GrammarType {
 			inAttrSel = false
 		}
 		p.pushBuf(tt, data)
+		prevTT = tt
 	}
+}
+
+// isWordToken returns true for tokens that would merge or change meaning when written next to each other without whitespace.
+func isWordToken(tt TokenType) bool {
+	return tt == IdentToken || tt == StringToken || tt == NumberToken || tt == DimensionToken || tt == PercentageToken || tt == HashToken
 }
 
 func (p *Parser) parseQualifiedRuleDeclarationList() GrammarType {
